@@ -85,8 +85,14 @@ impl Keys {
             .entry(name.to_string())
             .or_insert_with(|| {
                 use bc_components::EncapsulationScheme as E;
-                let schemes = [(E::X25519, "X25519"), (E::MLKEM512, "MLKEM512"), (E::MLKEM768, "MLKEM768"), (E::X25519, "X25519")];
-                let (sch, nm) = &schemes[((salt ^ fnv(name)) % schemes.len() as u64) as usize];
+                // every pair of schemes for (r1, r2) occurs over the chains, mixed ML-KEM levels included
+                let schemes = [(E::X25519, "X25519"), (E::MLKEM512, "MLKEM512"), (E::MLKEM768, "MLKEM768")];
+                let idx = match name {
+                    "r1" => salt % 3,
+                    "r2" => (salt / 3) % 3,
+                    _ => ((salt / 9) ^ fnv(name)) % 3,
+                };
+                let (sch, nm) = &schemes[idx as usize];
                 let (private, public) = sch.keypair();
                 std::rc::Rc::new(RecipientKey { private, public, scheme: nm.to_string() })
             })
@@ -152,6 +158,11 @@ fn bind_opaque(atom: &Value, cbor: &dcbor::CBOR, ctx: &mut Ctx, keys: &Keys, pat
             let sm = bc_components::SealedMessage::try_from(cbor.clone()).map_err(|e| format!("{}: not a SealedMessage: {}", path, e))?;
             let who = atom[3].as_str().unwrap_or("");
             let rk = keys.recipient(who);
+            // (never hand a key a sealed message of another scheme: the dependency's decapsulation panics on
+            // another ML-KEM level - finding D13)
+            if sm.encapsulation_scheme() != rk.private.encapsulation_scheme() {
+                return Err(format!("{}: sealed message of another encapsulation scheme than {}'s key", path, who));
+            }
             let plain = sm.decrypt(&rk.private).map_err(|e| format!("{}: sealed message does not open for {}: {}", path, who, e))?;
             let key = SymmetricKey::from_tagged_cbor_data(plain).map_err(|e| format!("{}: sealed payload is not a key: {}", path, e))?;
             let ck = atom[4].as_str().unwrap_or("");
